@@ -41,6 +41,7 @@ class C01(DevProp):
     fail_term = "c01_failures k"
     mis_term = "c01_mismatch k"
     nontrivial_term = None
+    soak = True
     monitor_name = "C01 monitor (nothing sounding whenever no key is down; nothing sounding after the disconnect clean-up)"
     correspondence_name = "C01 view (sounding set at quiescent points and after clean-up, State().Notes per event)"
     rule = ("alternating key histories over 1-3 mappings with shared pitches, all actions, all four collision modes; templates "
@@ -77,11 +78,7 @@ class C01(DevProp):
         n_rand = 220 if tier == "quick" else 6000
         n_pref = 25 if tier == "quick" else 400
         for i in range(n_rand):
-            cfg = devgen.gen_config(rng, with_exit=(rng.random() < 0.2))
-            h = devgen.gen_history(rng, cfg, rng.randint(10, 70), p_action=rng.choice([0.2, 0.35, 0.5]))
-            if rng.random() < 0.5:
-                h = h + devgen.release_all(h)
-            cases.append({"cfg": cfg, "abs": [], "events": h, "tag": "random"})
+            cases.append(self.soak_case(rng))
         for i in range(n_pref):
             cfg = devgen.gen_config(rng, with_exit=False)
             h = devgen.gen_history(rng, cfg, rng.randint(8, 22), p_action=0.35, repeats=False)
@@ -91,6 +88,15 @@ class C01(DevProp):
             for j in range(len(t["events"]) + 1):
                 cases.append({"cfg": t["cfg"], "abs": [], "events": t["events"][:j], "tag": "template-disconnect-at-prefix"})
         return cases
+
+    def soak_case(self, rng):
+        """one case of the 'random' stream (also the stream of the extracted-model soak); every case ends with the disconnect
+        clean-up, half of them with keys still down"""
+        cfg = devgen.gen_config(rng, with_exit=(rng.random() < 0.2))
+        h = devgen.gen_history(rng, cfg, rng.randint(10, 70), p_action=rng.choice([0.2, 0.35, 0.5]))
+        if rng.random() < 0.5:
+            h = h + devgen.release_all(h)
+        return {"cfg": cfg, "abs": [], "events": h, "tag": "random"}
 
 
 class C01A(DevProp):
